@@ -186,20 +186,10 @@ Qed.
 
 (* ------------------------------------------------------------------ the flag loop of util.prepare_iter_for_array *)
 Local Close Scope string_scope.
-(* the same step without the early break *)
-Definition iter_step_all (st : iflags) (e : elem) : iflags := iter_step (mk_iflags false (f_tuple st) (f_str st) (f_non_str st) (f_inexact st) (f_big st)) e.
-
-Definition flags_formula (st : iflags) : bool :=
-  f_tuple st || (f_str st && f_non_str st) || (f_big st && f_inexact st).
-
 Definition flags_of (es : list elem) : iflags :=
   let t := existsb is_tuple_e es in let s := existsb is_str_e es in let o := existsb is_other_e es in
   let i := existsb is_inexact_e es in let b := existsb is_big_e es in
   mk_iflags (t || (s && o) || (b && i)) t s o i b.
-
-Definition flags_le (a b : iflags) : bool :=
-  implb (f_tuple a) (f_tuple b) && implb (f_str a) (f_str b) && implb (f_non_str a) (f_non_str b) &&
-  implb (f_inexact a) (f_inexact b) && implb (f_big a) (f_big b).
 
 Lemma is_inexact_other e : is_inexact_e e = true -> is_other_e e = true.
 Proof. destruct e as [v|d v]; [destruct v|]; cbn; congruence. Qed.
